@@ -107,6 +107,15 @@ fn run_c07o(line: &str) -> String {
         if !otlp.blocking_flush(LONG) {
             return Some("harness-error:phase1-flush".into());
         }
+        // a worker that has just finalised a batch still has `is_in_batch` set until its next (empty) hand-off,
+        // and a zero-timeout flush in that window legitimately reports `false`; wait for quiescence first
+        let t0 = std::time::Instant::now();
+        while !otlp.blocking_flush(Duration::ZERO) {
+            if t0.elapsed() > LONG {
+                return Some("harness-error:not-quiescent".into());
+            }
+            std::thread::sleep(Duration::from_millis(1));
+        }
         // phase 2: park the `held` signals' requests at the collector, let the `dead` ones fail into their back-off
         let mut scripts: HashMap<Signal, VecDeque<Resp>> = HashMap::new();
         let mut held = 0;
